@@ -35,8 +35,8 @@ local macro "compat_tac" f:ident : tactic => `(tactic| (
 theorem tie_isCompatible :
     gen_isCompatibleDescriptor = isCompatible ∨ gen_isCompatibleDescriptor = isCompatibleFixed := by
   first
-  | (left; compat_tac isCompatible)
-  | (right; compat_tac isCompatibleFixed)
+  | (left; compat_tac isCompatible; done)
+  | (right; compat_tac isCompatibleFixed; done)
 
 /-- proxy.go:386 -/
 theorem tie_definePostCheck :
@@ -159,8 +159,8 @@ theorem tie_ownKeys : ownKeysWith gen_ownKeysStep1 gen_ownKeysStep2 gen_ownKeysF
 theorem tie_toValueProp :
     toValuePropWith gen_toValuePropAccessor = toValueProp ∨ toValuePropWith gen_toValuePropAccessor = toValuePropFixed := by
   first
-  | (left; funext d; simp [toValuePropWith, toValueProp, gen_toValuePropAccessor])
-  | (right; funext d; simp [toValuePropWith, toValuePropFixed, gen_toValuePropAccessor])
+  | (left; funext d; simp [toValuePropWith, toValueProp, gen_toValuePropAccessor]; done)
+  | (right; funext d; simp [toValuePropWith, toValuePropFixed, gen_toValuePropAccessor]; done)
 
 /-- the Str / Idx / Sym copies of every triplicated proxyObject method are the same text up to the key-kind
 suffix and the name of the key parameter -/
